@@ -422,6 +422,11 @@ pub fn apply_schema(
             new_table.columns.keys().collect::<Vec<&String>>()
         );
 
+        // same columns in a different order is still a different primary key
+        if !table.pk.iter().eq(new_table.pk.iter()) {
+            return Err(ApplySchemaError::ModifyPrimaryKeys(name.clone()));
+        }
+
         // 1. Check column drops... don't allow unless flag is passed
 
         let dropped_cols = table
